@@ -588,4 +588,47 @@ Definition parse_fill_kw (first_arg : string) (stack : list string) : res fill_k
         then Ok (mkFillKw None (FInt u) params rest) else Err EValue
     end.
 
+(* ------------------------------------------------------------------------ *)
+(* parse_one_cell_worker: the option string of a cell card -> keyword tokens  *)
+(* ------------------------------------------------------------------------ *)
+(*   option = re.sub(' *: *', ':', option)
+     option = option.lower().replace('(', ' ').replace(')', ' ').replace('=', ' ')
+     kw_list = list(reversed(option.split()))
+   as one pass over the characters (tokens in reading order): blanks next to a
+   colon vanish (only the space character, as in the regular expression), "(",
+   ")", "=" and white space separate tokens, ASCII letters are lower-cased. *)
+Definition lower_ascii (c : ascii) : ascii :=
+  let n := N_of_ascii c in
+  if (65 <=? n)%N && (n <=? 90)%N then ascii_of_N (n + 32) else c.
+
+Definition is_space_like (c : ascii) : bool :=
+  let n := N_of_ascii c in
+  (n =? 9)%N || (n =? 10)%N || (n =? 11)%N || (n =? 12)%N || (n =? 13)%N
+  || Ascii.eqb c "(" || Ascii.eqb c ")" || Ascii.eqb c "=".
+
+Definition push_token (cur : string) (acc : list string) : list string :=
+  match cur with EmptyString => acc | _ => cur :: acc end.
+
+(* cur: token being built; pending: a space was seen after it; after: the last
+   character kept was a colon (following spaces are dropped); acc: reversed *)
+Fixpoint tokenize_from (s : string) (cur : string) (pending after : bool) (acc : list string)
+  : list string :=
+  match s with
+  | EmptyString => rev (push_token cur acc)
+  | String c r =>
+      if Ascii.eqb c " " then
+        if after then tokenize_from r cur false true acc
+        else tokenize_from r cur true false acc
+      else if Ascii.eqb c ":" then
+        tokenize_from r (cur ++ ":") false true acc
+      else if is_space_like c then
+        tokenize_from r EmptyString false false (push_token cur acc)
+      else
+        if pending then
+          tokenize_from r (String (lower_ascii c) EmptyString) false false (push_token cur acc)
+        else tokenize_from r (cur ++ String (lower_ascii c) EmptyString) false false acc
+  end.
+
+Definition tokenize_options (s : string) : list string := tokenize_from s EmptyString false false [].
+
 Close Scope string_scope.
